@@ -8,10 +8,12 @@ package cluster
 import (
 	"context"
 	"crypto/sha256"
+	"reflect"
 	"sort"
 	"sync"
 	"time"
 
+	"github.com/IBM/TSS/msg"
 	"github.com/IBM/TSS/threshold"
 	tss "github.com/IBM/TSS/types"
 
@@ -36,6 +38,9 @@ type Config struct {
 	Script backend.Script
 	// Nodes to instantiate (default: all nodes of Map)
 	Nodes []uint16
+	// FastBoxClock: in silent mode, set the sweep period of the scheme's msg.Box (an exported field of an exported type
+	// embedded in the value SilentScheme returns) before its first use, so that the GC clock ticks during short runs
+	FastBoxClock time.Duration
 }
 
 type Cluster struct {
@@ -43,6 +48,8 @@ type Cluster struct {
 	Net     *simnet.Net
 	Schemes map[uint16]tss.MpcParty
 	Hub     *BarrierHub
+	// FastClocks counts the message boxes whose clock could be sped up
+	FastClocks int
 
 	mu       sync.Mutex
 	session  uint32
@@ -85,6 +92,17 @@ func New(cfg Config) *Cluster {
 		var s tss.MpcParty
 		if cfg.Silent {
 			s = threshold.SilentScheme(u, common.Nolog{}, kgf, sf, cfg.Threshold, c.Net.SendFunc(u), membership, c.pick)
+			if cfg.FastBoxClock > 0 {
+				if v := reflect.ValueOf(s); v.Kind() == reflect.Ptr && v.Elem().Kind() == reflect.Struct {
+					if f := v.Elem().FieldByName("Box"); f.IsValid() && f.CanInterface() {
+						if b, ok := f.Interface().(*msg.Box); ok && b != nil {
+							b.GCSweep = cfg.FastBoxClock
+							b.GCExpire = 4000 * cfg.FastBoxClock
+							c.FastClocks++
+						}
+					}
+				}
+			}
 		} else {
 			s = threshold.LoudScheme(u, common.Nolog{}, kgf, sf, cfg.Threshold, c.Net.SendFunc(u), membership)
 			if cfg.Barrier {
